@@ -11,7 +11,7 @@ fn once(case: &Value, run: &Run) -> Acc {
         "parse" | "parse-eval" => crate::checks::lang::replay(case, run),
         "ladder" => crate::checks::robust::replay_ladder(case, run),
         "built-index" | "built-slice" => crate::checks::robust::replay_built(case, run),
-        "ref" | "ref-history" => crate::checks::refs::replay(case, run),
+        "ref" | "ref-history" | "ref-seq" => crate::checks::refs::replay(case, run),
         "spelling" => crate::checks::spellings::replay(case, run),
         "views" => crate::checks::views::replay(case, run),
         "schedule" => crate::checks::purity::replay_schedule(case, run),
